@@ -8,13 +8,17 @@ import (
 func init() { register("C14", propC14) }
 
 func propC14(r *Report, tier string) {
-	r.Explanation = "Structural necessary conditions of 'an online backup is a consistent point-in-time copy': (a) CopyReader reads the root pointer, takes its reference and schedules every segment file (persisted name or future name zapFileName(id)) inside ONE rootLock write critical section; CloseCopyReader un-schedules with a stored decrement over the same file-name function and deletes an entry only at zero (shared with C12); (b) indexImpl.CopyTo acquires the copy reader under the handle lock after the open test, defers CloseCopyReader immediately after obtaining it, and releases it exactly once (no explicit second release on any path); (c) IndexSnapshot.CopyTo copies/persists every segment inside prepareBoltSnapshot before tx.Commit, then Sync, rolling back on failure (shared ordering rule with C03); (d) the copy path reads only the pinned snapshot, never Scorch.root; (e) the purger honours copyScheduled (shared with C12)."
+	r.Explanation = "Structural necessary conditions of 'an online backup is a consistent point-in-time copy': (a) CopyReader reads the root pointer, takes its reference and schedules every segment file (persisted name or future name zapFileName(id)) inside ONE rootLock write critical section; CloseCopyReader un-schedules with a stored decrement over the same file-name function and deletes an entry only at zero (shared with C12); (b) indexImpl.CopyTo acquires the copy reader under the handle lock after the open test, defers CloseCopyReader immediately after obtaining it, and releases it exactly once (no explicit second release on any path); (c) IndexSnapshot.CopyTo copies/persists every segment inside prepareBoltSnapshot before tx.Commit, then Sync, rolling back on failure (shared ordering rule with C03); (d) the copy path reads only the pinned snapshot, never Scorch.root; (e) the purger honours copyScheduled (shared with C12); (f) prepareBoltSnapshot writes the deleted bits of every segment whatever its kind (shared with C03/C13: the copy has no later persist round to catch up); (g) a published snapshot - the one a copy reader pins - is never written again: every store through a snapshot field goes to storage allocated for the new snapshot (shared with C04)."
 	r.NotCovered = "equality of the copied contents; that the destination opens; behaviour under destination write errors beyond rollback; index_meta.json copy"
 	ruleCopyScheduledPairing(r, "K12-copy-scheduled-pairing")
 	ruleCopyToReleasesOnce(r, "K1-copy-reader-released-once")
 	ruleSnapshotPersisterOrder(r, "K5-persist-order")
 	ruleCopyReadsOnlyPinned(r, "K7-copy-reads-pinned-snapshot")
 	rulePurgerGuards(r, "K5-purger-guards")
+	// the copy is written by the same prepareBoltSnapshot as a persist round, but has no following round
+	ruleDeletedBitsWrittenForEverySegment(r, "K5-deleted-bits-for-every-segment")
+	// the pinned snapshot is a point in time only if published snapshots are never written again
+	rulePublishedSnapshotsImmutable(r, "K6-published-immutable")
 	r.Floor("K12-copy-scheduled-pairing", 5)
 	r.Floor("K1-copy-reader-released-once", 3)
 	r.Floor("K5-persist-order", 14)
